@@ -245,8 +245,53 @@ bool sqf::parser::sqf::parser::get_tree(::sqf::runtime::runtime& runtime, ::sqf:
     return success;
 }
 
+namespace
+{
+    // Code generation and the destruction of the syntax tree recurse once per nesting level of
+    // brackets: beyond this depth the input is refused instead of exhausting the stack.
+    const size_t max_nesting_depth = 10000;
+    bool nesting_too_deep(std::string& contents, const std::string& path, size_t& out_line, size_t& out_column)
+    {
+        using tokenizer = ::sqf::parser::sqf::tokenizer;
+        tokenizer t(contents.begin(), contents.end(), path);
+        size_t depth = 0;
+        while (true)
+        {
+            auto token = t.next();
+            switch (token.type)
+            {
+            case tokenizer::etoken::eof:
+            case tokenizer::etoken::invalid:
+                return false;
+            case tokenizer::etoken::s_curlyo:
+            case tokenizer::etoken::s_roundo:
+            case tokenizer::etoken::s_edgeo:
+                if (++depth > max_nesting_depth)
+                {
+                    out_line = token.line;
+                    out_column = token.column;
+                    return true;
+                }
+                break;
+            case tokenizer::etoken::s_curlyc:
+            case tokenizer::etoken::s_roundc:
+            case tokenizer::etoken::s_edgec:
+                if (depth > 0) { depth--; }
+                break;
+            default:
+                break;
+            }
+        }
+    }
+}
 std::optional<sqf::runtime::instruction_set> sqf::parser::sqf::parser::parse(::sqf::runtime::runtime& runtime, std::string contents, ::sqf::runtime::fileio::pathinfo file)
 {
+    size_t deep_line = 0, deep_column = 0;
+    if (nesting_too_deep(contents, file.physical, deep_line, deep_column))
+    {
+        __log(logmessage::sqf::ParseError({ file.physical, deep_line, deep_column }, "Brackets are nested too deeply."));
+        return {};
+    }
     tokenizer t(contents.begin(), contents.end(), file.physical);
     ::sqf::parser::sqf::bison::astnode res;
     ::sqf::parser::sqf::bison::parser p(t, res, *this, runtime);
@@ -263,6 +308,12 @@ std::optional<sqf::runtime::instruction_set> sqf::parser::sqf::parser::parse(::s
 
 bool ::sqf::parser::sqf::parser::check_syntax(::sqf::runtime::runtime& runtime, std::string contents, ::sqf::runtime::fileio::pathinfo file)
 {
+    size_t deep_line = 0, deep_column = 0;
+    if (nesting_too_deep(contents, file.physical, deep_line, deep_column))
+    {
+        __log(logmessage::sqf::ParseError({ file.physical, deep_line, deep_column }, "Brackets are nested too deeply."));
+        return false;
+    }
     tokenizer t(contents.begin(), contents.end(), file.physical);
     ::sqf::parser::sqf::bison::astnode res;
     ::sqf::parser::sqf::bison::parser p(t, res, *this, runtime);
